@@ -18,7 +18,7 @@ def parse_hello_tok(op):
 def sni_len_typo(op, impl, model):
     """tlsx reads the server_name list length as data[0]<<8|data[0]: a list of length L with
     L mod 256 < L div 256 is rejected (ErrHandshakeExtBadLength) although the hello is well-formed."""
-    if not op.startswith(('ja3spec ', 'e2e-ja3 ')):
+    if not op.startswith(('ja3spec ', 'ja3fpspec ', 'e2e-ja3 ')):
         return False
     _, exts = parse_hello_tok(op)
     for k, rest in exts:
